@@ -87,7 +87,20 @@ func rulesC15(c *Ctx) {
 			end := p.EndState(fn, loop.Body)
 			for _, chk := range checks {
 				ok := end != nil && !end.Dead && p.Holds(end, p.ResultNilAtom(true, func(call *ast.CallExpr, a Atom) bool {
-					return len(call.Args) >= 1 && strings.Contains(p.Src(call.Args[0]), "partition")
+					if len(call.Args) < 1 {
+						return false
+					}
+					// the argument is (an address / field of) the partition this iteration works on
+					ok := false
+					ast.Inspect(call.Args[0], func(m ast.Node) bool {
+						if id, isID := m.(*ast.Ident); isID {
+							if p.TypeName(p.TypeOf(id)) == "configs.PartitionConfig" {
+								ok = true
+							}
+						}
+						return true
+					})
+					return ok
 				}, chk))
 				c.Check("C15.a", "partition accepted only after "+shortFn(chk), loop, ok, "the end of the per-partition block can be reached without %s(partition...) == nil", chk)
 			}
